@@ -231,6 +231,8 @@ def main(argv=None):
             if K.layer == "backend" and ("C13" in getattr(K, "vprops", ()) or prop in getattr(K, "interface_for", ())) and nm not in have:
                 bnames.add(nm)
                 for cfg in K.configs(tier):
+                    if cfg.get("own_only") and prop not in getattr(K, "interface_for", ()):
+                        continue
                     btasks.append((nm, cfg, "VRFK", tier))
         if btasks:
             bres = run_tasks(btasks, a.jobs, tier)
